@@ -189,20 +189,20 @@ From Mxj Require Import Gen.Setters_gen Gen.PureSupport Gen.Pure_gen Spec.ConvCl
 
 Theorem C14_xml_parser_code_is_model : forall pf callskip o r st fuel ts tm,
   dec_view st o -> cast_view st o -> length ts < fuel -> forallb start_ok ts = true ->
-  fn_xmlToMapParser (run_escapeChars st) (run_cast pf callskip st) fuel st [] [] (ts, tm) r
+  fn_xmlToMapParser (run_cast pf callskip st) (run_escapeChars st) fuel st [] [] (ts, tm) r
   = dec_top_result tm (xml_decode_rest pf (skip_of st callskip) o r ts tm).
 Proof. exact xml_parser_code_is_model_translated. Qed.
 Print Assumptions C14_xml_parser_code_is_model.
 
 Theorem C14_xml_parser_code_no_panic : forall pf callskip o r st fuel ts tm,
   dec_view st o -> cast_view st o -> length ts < fuel -> forallb start_ok ts = true -> top_ok ts = true ->
-  fn_xmlToMapParser (run_escapeChars st) (run_cast pf callskip st) fuel st [] [] (ts, tm) r <> Crash.
+  fn_xmlToMapParser (run_cast pf callskip st) (run_escapeChars st) fuel st [] [] (ts, tm) r <> Crash.
 Proof. exact xml_parser_code_no_panic. Qed.
 Print Assumptions C14_xml_parser_code_no_panic.
 
 Theorem C14_xml_parser_code_empty_name_refuted :
   exists pf skip o r st ts tm, dec_view st o /\
-    fn_xmlToMapParser escape_chars (fun x b t => cast pf skip o x b t) (S (length ts)) st [] [] (ts, tm) r
+    fn_xmlToMapParser (fun x b t => cast pf skip o x b t) escape_chars (S (length ts)) st [] [] (ts, tm) r
     <> dec_top_result tm (xml_decode_rest pf skip o r ts tm).
 Proof. exact xml_parser_code_is_model_empty_name_refuted. Qed.
 Print Assumptions C14_xml_parser_code_empty_name_refuted.
